@@ -184,19 +184,29 @@ theorem step_sids (guard : SplitGuard) (s : State) (op : Op) :
       by_cases hp : supiAccepted r.supi = true
       · right
         simp only [hp, not_true_eq_false, if_false]
-        refine ⟨(match findUe s.ues r.supi with | some u => u | none => { supi := r.supi }), _, ?_, rfl, ?_, ?_⟩
-        · cases hu : findUe s.ues r.supi with
-          | none => right; rfl
-          | some u => left; exact mem_of_findUe hu
-        · by_cases h1 : r.one = true <;> simp [h1]
-        · intro k hk
-          simp only [keysOf] at hk
-          rcases keys_setSid hk with h | h
-          · by_cases h1 : r.one = true
-            · simp only [h1, if_true] at h; right; left; exact h
-            · simp only [h1, if_false, Bool.false_eq_true] at h
-              right; right; exact ⟨r.supi, nf, h, by simp [h1]⟩
-          · left; exact h
+        by_cases hb : r.bad = true
+        · -- refused by OpenCDR: the session map is untouched, the sequence number is not handed back
+          simp only [hb, if_true]
+          refine ⟨(match findUe s.ues r.supi with | some u => u | none => { supi := r.supi }), _, ?_, rfl, ?_, ?_⟩
+          · cases hu : findUe s.ues r.supi with
+            | none => right; rfl
+            | some u => left; exact mem_of_findUe hu
+          · by_cases h1 : r.one = true <;> simp [h1]
+          · intro k hk; left; exact hk
+        · simp only [hb, Bool.false_eq_true, if_false]
+          refine ⟨(match findUe s.ues r.supi with | some u => u | none => { supi := r.supi }), _, ?_, rfl, ?_, ?_⟩
+          · cases hu : findUe s.ues r.supi with
+            | none => right; rfl
+            | some u => left; exact mem_of_findUe hu
+          · by_cases h1 : r.one = true <;> simp [h1]
+          · intro k hk
+            simp only [keysOf] at hk
+            rcases keys_setSid hk with h | h
+            · by_cases h1 : r.one = true
+              · simp only [h1, if_true] at h; right; left; exact h
+              · simp only [h1, if_false, Bool.false_eq_true] at h
+                right; right; exact ⟨r.supi, nf, h, by simp [h1]⟩
+            · left; exact h
       · left; simp [hp]
   | update sid r =>
     simp only [step, update]
